@@ -28,12 +28,12 @@ def run(tier, seed, replay=None):
     BASE.clear()
     return interpcheck.run_interp_check(
         "C20", "c20", ("result",), {"quick": 1, "thorough": 100000}, tier, seed,
-        rule="complete product of 52 operation templates (every unary/binary operator, index, slice, len, in, call, spread into "
+        rule="complete product of 62 operation templates (every unary/binary operator, index, slice, len, in, call, spread into "
              "fixed/variadic/Go functions, member, map key, for-in, switch subject and case, conditions, ternary, ??, throw, "
-             "assignment targets, delete, defer, var, multi-assignment, return list, Go call arguments, string conversion) x 12 "
-             "operand values (int, 0, float, string, numeral string, bool, nil, slice, empty slice, map, function, nested slice) "
+             "assignment targets, delete, defer, var, multi-assignment, return list, Go call arguments, string conversion, ordering against neighbours of 2^53, == / != against the same value, deref) x 15 "
+             "operand values (int, 0, float, string, numeral string, bool, nil, slice, empty slice, map, function, nested slice, +-(2^53+1), pointer) "
              "x provenance chains over 10 hop kinds (element, map entry, member, script call, Go call returning interface{}, "
              "parentheses, ternary, ??, parameter, second element): all chains of length 1, 25% of length 2 (thorough: length 3 "
              "sampled); oracle on the implementation alone: same result value, dynamic type and error-or-success as with the "
              "plain variable; and agreement with the (provenance-blind) Coq model",
-        design_ref="DESIGN.md §4 C20", impl_oracle=impl_oracle, max_dropped=0.08)
+        design_ref="DESIGN.md §4 C20", impl_oracle=impl_oracle, max_dropped=0.2)
